@@ -200,7 +200,8 @@ def heap_bit_rule(R):
                 continue
             n += 1
             r = e.get("r")
-            keeps = any(isinstance(x, dict) and x.get("k") == "var" and x.get("name") == "kHeapBit" for x in subexprs(fn.expand_expr(r, use_block=p.b)))
+            # the storage-mode flag is the top bit of size_type (whatever the constant is called)
+            keeps = any(isinstance(x, dict) and const_val(x) in (1 << 63, 1 << 31, 1 << 15, -(1 << 63), -(1 << 31)) for x in subexprs(fn.expand_expr(r, use_block=p.b)))
             zero_after_release = const_val(r) == 0 and any(is_call(de, CLS + "::destroyAll") and fn.dominates(dp, p) for dp, de in fn.events())
             ok = keeps or zero_after_release
             R.ob("C38.heap-bit", fn, e, ok, "size_ = %s keeps the storage-mode bit" % expr_str(r) if keeps else ("size_ = 0 after destroyAll()" if ok else
